@@ -4,4 +4,6 @@ open Genq.Names
 #print axioms C16_conflict_iff_error
 #print axioms C16_raw_injective
 #print axioms C16_conflict_is_real
+#print axioms C16_global_unique
+#print axioms C16_cross_enum_collision_reported
 #print axioms C16_cross_enum_collision
